@@ -455,6 +455,13 @@ impl BitVector {
                     self.blocks[last_block_index] &= mask;
                 }
             }
+
+            // Blocks beyond the new length must not keep stale bits: structures built from
+            // `blocks()` (rank/select indexes) count every bit they find there
+            let used_blocks = (new_len + BITS_PER_BLOCK - 1) / BITS_PER_BLOCK;
+            for i in used_blocks..self.blocks.len() {
+                self.blocks[i] = 0;
+            }
         }
 
         Ok(())
